@@ -1,5 +1,5 @@
 SPECIFICATION Spec
-CONSTANTS NId = 3  NMeta = 3  MaxPkt = 8  MaxCalls = 8  Respond = FALSE  Mut = "none"
+CONSTANTS NId = 3  NMeta = 3  MaxPkt = 8  MaxCalls = 8  NResp = 2  Respond = FALSE  Mut = "none"
 INVARIANT PrintScn
 
 CHECK_DEADLOCK FALSE
